@@ -7,6 +7,8 @@ import (
 
 	"github.com/fiorix/go-diameter/v4/diam/dict"
 	"pgregory.net/rapid"
+
+	"verif/internal/refdict"
 )
 
 // Entry is an AVP definition as written in a dictionary file.
@@ -40,6 +42,12 @@ type Catalog struct {
 	Apps    []uint32
 	Cmds    []Cmd
 	Vendors []uint32
+
+	// Ref, when set, is the independent dictionary model loaded with the same
+	// documents: what a (code, vendor) pair means on the wire is then decided by
+	// the model, so that a fault in the library's own lookup cannot hide behind
+	// a generator that asked the library (C17 compares the two exhaustively).
+	Ref *refdict.Model
 
 	reach map[uint32]*reachIdx
 }
@@ -111,20 +119,40 @@ func NewCatalog(p *dict.Parser) *Catalog {
 // Resolve asks the parser what (code, vendor) means inside a message of
 // application app; codes it does not know are carried as Unknown.
 func (c *Catalog) Resolve(app, code, vendor uint32) string {
-	d, err := c.P.FindAVPWithVendor(app, code, vendor)
-	if err != nil || d == nil {
+	lib := TUnknown
+	if d, err := c.P.FindAVPWithVendor(app, code, vendor); err == nil && d != nil {
+		lib = d.Data.TypeName
+	}
+	if c.Ref == nil {
+		return lib
+	}
+	r := c.Ref.FindAVPByCode(app, code, vendor)
+	if !r.Found {
 		return TUnknown
 	}
-	return d.Data.TypeName
+	if len(r.Alt) == 0 {
+		return r.Def.Type
+	}
+	// several definitions inside ONE document at one level: the statement does not
+	// order them; take the library's choice if it is one of them
+	if r.Def.Type == lib {
+		return lib
+	}
+	for _, a := range r.Alt {
+		if a.Type == lib {
+			return lib
+		}
+	}
+	return r.Def.Type
 }
 
 // ResolveName returns the dictionary name too ("" when unknown).
 func (c *Catalog) ResolveName(app, code, vendor uint32) (typ, name string) {
 	d, err := c.P.FindAVPWithVendor(app, code, vendor)
 	if err != nil || d == nil {
-		return TUnknown, ""
+		return c.Resolve(app, code, vendor), ""
 	}
-	return d.Data.TypeName, d.Name
+	return c.Resolve(app, code, vendor), d.Name
 }
 
 // TreeOpts bounds an AVP tree.
